@@ -393,6 +393,9 @@ def write_climatology(scratch, rng, three_d, zero_sum=False):
         lat = lat[::-1].copy()
     if rng.random() < 0.2:
         lon = lon[::-1].copy()
+    if rng.random() < 0.2 and float(lon[0]) == int(lon[0]):
+        # whole-degree grids are sometimes stored with integer coordinate variables; a box edge at x.75 is still x.75
+        lat, lon = lat.astype(rng.choice(["int32", "int64"])), lon.astype(rng.choice(["int32", "int16"]))
     field = np.array([[rng.choice([-2.0, -1.0, 0.5, 1.0, 2.0, 3.5, 7.0, 12.25]) for _ in range(nlon)] for _ in range(nlat)])
     land = np.array([[rng.random() < 0.2 for _ in range(nlon)] for _ in range(nlat)])
     if zero_sum:
